@@ -62,12 +62,49 @@ def round_decimals(x, nd):
 
 def round_series(values, nd=6):
     """values: iterable of numbers as the writer sees them (float(v) is exact for float32/int64 below 2**53).
-    Returns (list of primary values, {index: alternate})."""
+    Returns (list of primary values, {index: alternate}).  Scalar reference: every value goes through round_decimals."""
     prim = []
     alts = {}
     for i, v in enumerate(values):
         p, a = round_decimals(float(v), nd)
         prim.append(p)
+        if a is not None:
+            alts[i] = a
+    return prim, alts
+
+
+SAFE_SCALED_MAX = 2.0 ** 36     # |x|*10**nd below this: the scaled value carries >= 16 fractional bits
+SAFE_TIE_MARGIN = 1e-3          # distance of frac(|x|*10**nd) from 0.5 above which x is nowhere near a tie
+
+
+def round_series_fast(values, nd=6):
+    """Same result as round_series for a long record, with the per-value work vectorised.
+
+    primary: Python's formatter for every value (one tight loop, no Decimal).  Cross-check and tie detection: for values
+    with y = |x|*10**nd < 2**36 and |frac(y) - 0.5| > 1e-3 the nearest multiple is rint(y)/10**nd exactly (the error
+    of y is < 2**-17 << 1e-3, k/10**nd is one correctly rounded division = float of the decimal string) and x is
+    > 9e-10*10**(6-nd) away from a half-way point, i.e. far more than TIE_ULPS ulps: no alternate.  Every other value
+    (near a tie, or large) goes through the exact scalar path.  Returns (float64 array, {index: alternate})."""
+    import numpy as np
+    v = np.asarray([float(x) for x in values] if not isinstance(values, np.ndarray) else values, dtype=float)
+    if v.size and not np.all(np.isfinite(v)):
+        raise ValueError('round_series_fast: non-finite value is outside the format')
+    scale = 10.0 ** nd
+    fmt = '%%.%df' % nd
+    prim = np.array([float(fmt % x) for x in v.tolist()], dtype=float)
+    y = np.abs(v) * scale
+    safe = (y < SAFE_SCALED_MAX) & (np.abs(y - np.floor(y) - 0.5) > SAFE_TIE_MARGIN)
+    chk = np.copysign(np.rint(y) / scale, v)
+    bad = safe & (prim != chk)
+    if np.any(bad):
+        i = int(np.flatnonzero(bad)[0])
+        raise OracleError('oracle self-check: %r to %d decimals: formatter %r, scaled rounding %r'
+                          % (float(v[i]), nd, float(prim[i]), float(chk[i])))
+    alts = {}
+    for i in np.flatnonzero(~safe).tolist():
+        p, a = round_decimals(float(v[i]), nd)
+        if p != prim[i]:
+            raise OracleError('oracle self-check: two formatter calls disagree on %r' % float(v[i]))
         if a is not None:
             alts[i] = a
     return prim, alts
